@@ -100,6 +100,28 @@ func DumpVars(c *core.Ctx, module, cfg string, vars []string, fn func(map[string
 	return res, flush()
 }
 
+// FirstBadState returns the state TLC reported for a violated invariant: the
+// initial state ("violated by the initial state:") or the last state of the
+// counterexample.
+func FirstBadState(res *tlc.Result) (tlaval.State, bool) {
+	const mark = "is violated by the initial state:\n"
+	if i := strings.Index(res.Output, mark); i >= 0 {
+		body := res.Output[i+len(mark):]
+		if j := strings.Index(body, "\n\n"); j >= 0 {
+			body = body[:j]
+		}
+		st, err := tlaval.ParseState(strings.TrimSpace(body))
+		if err == nil {
+			return st, true
+		}
+		return nil, false
+	}
+	if n := len(res.CounterEx); n > 0 {
+		return res.CounterEx[n-1].State, true
+	}
+	return nil, false
+}
+
 func firstLine(s string) string {
 	if i := strings.Index(s, "\n"); i >= 0 {
 		return s[:i]
